@@ -127,10 +127,12 @@ def gen_alloc(rng, need):
 
 
 # model -> (needed slots, particle, E range, cut range or None)
-MODELLED = ["kn", "gg", "mb", "muhad", "bhlow", "bremtail", "rotate", "exitdir", "calcexit"]
+MODELLED = ["kn", "gg", "mb", "muhad", "bhlow", "relax", "bremtail", "rotate", "exitdir", "calcexit"]
 
 
 def gen_model_line(rng, kind):
+    if kind == "relax":
+        return gen_relax_line(rng)
     d = gen_dir(rng)
     script = gen_script(rng, rng.choice([0, 1, 2, 3, 4, 5, 7, 9, 12, 16, 24]))
     sc = " ".join(map(hx, script))
@@ -185,9 +187,12 @@ PIDS = {"e-": 0, "e+": 1, "gamma": 2, "mu-": 3, "mu+": 4}
 MASS = {0: EMASS, 1: EMASS, 2: 0.0, 3: MUMASS, 4: MUMASS}
 
 
-def _m(need, inc, lo, hi, cut=None, mom=False, sec=(), thr=None, scattered=True):
+def _m(need, inc, lo, hi, cut=None, mom=False, sec=(), thr=None, scattered=True, own=None):
+    """own: which production cut bounds the model's own sampling interval ('e' / 'g' / None)"""
+    if own is None and cut is not None:
+        own = "g" if 2 in sec and 0 not in sec else "e"
     return dict(need=need, inc=PIDS[inc], lo=lo, hi=hi, cut=cut, mom=mom, sec=set(sec), thr=thr,
-                scattered=scattered)
+                scattered=scattered, own=own)
 
 
 ORACLE_MODELS = {
@@ -215,8 +220,10 @@ ORACLE_MODELS = {
     "cb-": _m(1, "e-", None, 1e8, cut=(1e-3, 1.0), sec=(2,), thr="cut"),
     "cb+": _m(1, "e+", None, 1e8, cut=(1e-3, 1.0), sec=(2,), thr="cut"),
     "pe": _m(1, "gamma", 1e-5, 1e3, sec=(0,), scattered=False),
-    "perelax": _m(8, "gamma", 1e-5, 1e3, cut=(1e-5, 1e-3), sec=(0, 2), thr="relax",
-                  scattered=False),
+    "perelax": _m(8, "gamma", 1e-5, 1e3, cut=(1e-5, 1e-2), sec=(0, 2), thr="relax",
+                  scattered=False, own="both"),
+    "perelaxf": _m(8, "gamma", 1e-5, 1e3, cut=(1e-5, 1e-2), sec=(0, 2), thr="relax",
+                   scattered=False, own="both"),
     "ray0": _m(0, "gamma", 1e-4, 1e2), "ray1": _m(0, "gamma", 1e-4, 1e2),
     "ray2": _m(0, "gamma", 1e-4, 1e2),
 }
@@ -226,12 +233,46 @@ for sgn, inc in (("-", "e-"), ("+", "e+")):
             ORACLE_MODELS["cs%s%s%s" % (sgn, ff, iso)] = _m(0, inc, 1e-3, 1e5, cut=(1e-3, 1.0))
 
 
+def gen_cuts(rng, m):
+    """(cut_e, cut_g, cut_p): independent production cuts — equal, γ below e, γ above e, one of
+    them zero (never the cut that bounds the model's own sampling interval), fully independent"""
+    lo, hi = m["cut"] or (1e-4, 1.0)
+    a, b, c = (log_uniform(rng, lo, hi) for _ in range(3))
+    own = m["own"]
+    mode = rng.below(6)
+    if mode == 0:
+        return a, a, a
+    if mode == 1:
+        ce, cg = max(a, b) * (1 + rng.unit() * 9), min(a, b)
+    elif mode == 2:
+        ce, cg = min(a, b), max(a, b) * (1 + rng.unit() * 9)
+    elif mode == 3:
+        ce, cg = a, b
+        if own == "e":
+            cg = 0.0
+        elif own == "g":
+            ce = 0.0
+        elif rng.chance(1, 2):
+            ce = 0.0
+        else:
+            cg = 0.0
+    else:
+        ce, cg = a, b
+    cp = rng.choice([c, ce, cg, 0.0])
+    if own == "e":
+        ce = min(max(ce, lo), hi)
+    if own == "g":
+        cg = min(max(cg, lo), hi)
+    return ce, cg, cp
+
+
 def gen_oracle_line(rng, name, scripted):
     m = ORACLE_MODELS[name]
-    cut = log_uniform(rng, *m["cut"]) if m["cut"] else 1e-3
+    ce, cg, cp = gen_cuts(rng, m)
+    own_cut = cg if m["own"] == "g" else ce
     lo = m["lo"]
     if lo is None:
-        lo = cut * (2 if name == "mb-" else 1) * (1 + 2.0 ** -30)
+        lo = own_cut * (2 if name == "mb-" else 1) * (1 + 2.0 ** -30)
     e = log_uniform(rng, lo, m["hi"])
     if name == "gg" and rng.chance(1, 12):
         e = 0.0
@@ -240,12 +281,77 @@ def gen_oracle_line(rng, name, scripted):
     d = gen_dir(rng)
     need = max(m["need"], 1)
     cap, size = gen_alloc(rng, need)
+    if name.startswith("perelax") and cap > size + need:
+        cap += 12          # room to SEE a write past the request instead of corrupting the heap
     if m["need"] == 0 and cap == 0:
         cap = 1
-    head = "x %s %d %d %s" % (name, cap, size, " ".join(map(hx, [e] + d + [cut])))
+    head = "x %s %d %d %s" % (name, cap, size, " ".join(map(hx, [e] + d + [ce, cg, cp])))
     if scripted:
         return head + " | u " + " ".join(map(hx, gen_script(rng, rng.choice([4, 8, 16, 32, 64]))))
     return head + " | s %x" % rng.below(1 << 32)
+
+
+def gen_relax_line(rng, op="relax"):
+    """synthetic EADL-like transition table: shells 0..n-1, every transition leads to strictly
+    outer shells (ids >= n have no data), radiative and non-radiative mixed, energies around
+    the two independent cuts"""
+    n = rng.range(1, 6)
+    ecut = rng.choice([0.0, 1e-3, log_uniform(rng, 1e-4, 1e-2)])
+    gcut = rng.choice([0.0, 1e-3, ecut, log_uniform(rng, 1e-4, 1e-2)])
+    toks = []
+    for sh in range(n):
+        k = rng.range(0, 4)
+        probs = [rng.unit() + 0.05 for _ in range(k)]
+        tot = sum(probs) * rng.choice([1.0, 1.0, 1.25])     # sometimes "no transition" remainder
+        for p in probs:
+            ini = rng.range(sh + 1, n + 2)
+            aug = "-" if rng.chance(1, 2) else str(rng.range(sh + 1, n + 2))
+            en = rng.choice([ecut, gcut, 1e-3, log_uniform(rng, 5e-5, 2e-2),
+                             min(ecut, gcut) + abs(ecut - gcut) * rng.unit()])
+            toks += ["t", str(sh), str(ini), aug, hx(p / tot), hx(en)]
+    script = gen_script(rng, rng.choice([0, 2, 3, 6, 9, 15, 30, 60]))
+    return "%s %d %d %s %s %s | %s" % (op, rng.below(n), n, hx(ecut), hx(gcut), " ".join(toks),
+                                       " ".join(map(hx, script)))
+
+
+def judge_xrelax(line, out):
+    """the real AtomicRelaxation on a synthetic table: Σ emitted = reported energy, every
+    secondary judged by its OWN type's cut, count within calc_max_secondaries()"""
+    w = line.split()
+    ecut, gcut = fl(w[3]), fl(w[4])
+    fails = []
+    if out == "script-exhausted":
+        return fails
+    o = out.split()
+    if not o or o[0] != "xrelaxed":
+        return [("relax:harness-" + (o[0] if o else "empty"), "AtomicRelaxation call: " + out[:80], {})]
+    try:
+        mx, cnt, tot = int(o[1]), int(o[2]), fl(o[3])
+        secs = [(int(o[4 + 5 * i]), fl(o[5 + 5 * i]), [fl(x) for x in o[6 + 5 * i:9 + 5 * i]])
+                for i in range(cnt)]
+    except (ValueError, IndexError):
+        return [("relax:unparsable", "unparsable " + out[:80], {})]
+    if cnt > mx:
+        fails.append(("relax:count-exceeds-max-secondaries", "AtomicRelaxation wrote %d secondaries "
+                      "but calc_max_secondaries (the caller's allocation) is %d" % (cnt, mx), {}))
+    s = 0.0
+    for pid, es, ds in secs:
+        s += es
+        if pid == 0 and es < ecut:
+            fails.append(("relax:auger-below-electron-cut", "Auger electron %.17g below the electron "
+                          "cut %.17g (gamma cut %.17g)" % (es, ecut, gcut), {}))
+        elif pid == 2 and es < gcut:
+            fails.append(("relax:photon-below-gamma-cut", "fluorescence photon %.17g below the gamma "
+                          "cut %.17g (electron cut %.17g)" % (es, gcut, ecut), {}))
+        elif pid not in (0, 2):
+            fails.append(("relax:particle-type", "unexpected particle id %d" % pid, {}))
+        n = math.sqrt(sum(c * c for c in ds)) if all(map(math.isfinite, ds)) else float("inf")
+        if abs(n - 1) > 1e-12:
+            fails.append(("relax:direction", "secondary direction not unit: %r" % (ds,), {}))
+    if abs(s - tot) > 8 * TWO53 * max(1, cnt) * (abs(tot) + 1e-300):
+        fails.append(("relax:energy", "reported relaxation energy %.17g != Σ emitted %.17g"
+                      % (tot, s), {}))
+    return fails
 
 
 # --------------------------------------------------------------------------- oracle predicate
@@ -312,7 +418,10 @@ def judge(name, line, out):
     m = ORACLE_MODELS[name]
     w = line.split()
     cap, size = int(w[2]), int(w[3])
-    e_in, d_in, cut = fl(w[4]), [fl(w[5]), fl(w[6]), fl(w[7])], fl(w[8])
+    e_in, d_in = fl(w[4]), [fl(w[5]), fl(w[6]), fl(w[7])]
+    cut_e, cut_g, cut_p = fl(w[8]), fl(w[9]), fl(w[10])
+    cut = cut_g if m["own"] == "g" else cut_e      # the cut bounding the model's own sampling
+    cut_of = {0: cut_e, 1: cut_p, 2: cut_g}
     fails = []
 
     def bad(key, what, **info):
@@ -320,7 +429,7 @@ def judge(name, line, out):
 
     if out in ("script-exhausted",):
         return fails
-    if out.startswith("failed-") or out.startswith("exception") or out == "bad-op":
+    if out.startswith(("failed-", "exception", "wrote-past")) or out == "bad-op":
         bad("harness-" + out.split()[0], "interactor call: " + out)
         return fails
     r = parse_out(out)
@@ -343,13 +452,13 @@ def judge(name, line, out):
         if r["size"] != size:
             bad("unchanged-allocated", "allocator size changed on unchanged outcome")
         return fails
-    if m["need"] > 0 and free < (1 if name == "perelax" else m["need"]):
+    if m["need"] > 0 and free < (1 if name.startswith("perelax") else m["need"]):
         bad("no-failure", "storage exhausted (%d free, needs %d) but outcome is %s"
             % (free, m["need"], r["action"]))
         return fails
     if (r["action"] == "scattered") != m["scattered"]:
         bad("action", "unexpected action " + r["action"])
-    if r["size"] - size != (m["need"] if m["need"] else 0) and name != "perelax":
+    if r["size"] - size != (m["need"] if m["need"] else 0) and not name.startswith("perelax"):
         bad("alloc-size", "allocator advanced by %d, expected %d" % (r["size"] - size, m["need"]))
     if len(r["secs"]) > r["size"] - size:
         bad("secondaries-outside-allocation", "more secondaries than allocated")
@@ -421,7 +530,7 @@ def judge(name, line, out):
             bad(key, what)
     if r["action"] == "scattered" and r["e"] > 0 and unit_err(r["dir"]) > 1e-12:
         bad_dir("direction", "outgoing direction not unit: %r" % (r["dir"],))
-    for pid, es, ds in r["secs"]:
+    for idx, (pid, es, ds) in enumerate(r["secs"]):
         if pid == -1:
             if not (name == "kn" and es == 0.0):
                 bad("undefined-secondary", "secondary with undefined particle id")
@@ -431,6 +540,11 @@ def judge(name, line, out):
         if unit_err(ds) > 1e-12:
             bad_dir("secondary-direction", "secondary direction not unit: %r (E=%.6g)" % (ds, es))
         thr = m["thr"]
+        if thr == "cut" and pid != (2 if m["own"] == "g" else 0) and es < cut_of.get(pid, 0.0):
+            bad("threshold-by-type", "secondary of particle id %d with %.17g below its own "
+                "production cut %.17g" % (pid, es, cut_of[pid]))
+        if thr == "cut" and pid != (2 if m["own"] == "g" else 0):
+            continue
         if thr == "kn" and es < 1e-4:
             bad("threshold", "electron below the model's 1e-4 MeV cutoff: %.17g" % es)
         if thr == "cut" and es < cut:
@@ -445,8 +559,9 @@ def judge(name, line, out):
                               % (name, es, cut), {}))
             else:
                 bad("threshold", "secondary %.17g below production cut %.17g" % (es, cut))
-        if thr == "relax" and (pid, es, ds) != r["secs"][0] and es < cut:
-            bad("threshold", "relaxation secondary %.17g below cut %.17g" % (es, cut))
+        if thr == "relax" and idx > 0 and es < cut_of.get(pid, 0.0):
+            bad("threshold-by-type", "relaxation secondary (particle id %d) %.17g below its own "
+                "production cut %.17g (cuts e=%.6g γ=%.6g)" % (pid, es, cut_of[pid], cut_e, cut_g))
     if name == "kn" and r["secs"] and r["secs"][0][0] == -1 and not (0 <= r["dep"] < 1e-4):
         bad("threshold", "cleared electron but deposit %.17g not below cutoff" % r["dep"])
     # momentum (all products returned)
@@ -527,7 +642,7 @@ def run(ctx):
                 lines += [l.rstrip("\n") for l in open(vlib.os.path.join(corpus, fn))
                           if l.strip() and not l.startswith("#")]
     for _ in range(n_corr):
-        lines.append(gen_model_line(rng, rng.choice(MODELLED[:5] * 3 + MODELLED[5:])))
+        lines.append(gen_model_line(rng, rng.choice(MODELLED[:6] * 3 + MODELLED[6:])))
     lines += [l for l in MALFORMED if not l.startswith("x")]
     diverged, kinds, distinct = [], {}, set()
     outcome_mix = {}
@@ -575,10 +690,23 @@ def run(ctx):
         w = d["op"].split()
         if w and w[0] in ("kn", "gg") and "|" in w:
             bar = w.index("|")
-            olines.append("x %s %s %s %s %s | u %s" % (w[0], w[1], w[2], " ".join(w[3:bar]), hx(1e-3),
+            olines.append("x %s %s %s %s %s | u %s" % (w[0], w[1], w[2], " ".join(w[3:bar]), " ".join([hx(1e-3)] * 3),
                                                        " ".join(w[bar + 1:])))
-    _, oo = vlib.run_lines([exe], olines)
+    n_xrelax = (3000 if quick else 40000) * mult
+    xlines = [gen_relax_line(rng, "xrelax") for _ in range(n_xrelax)]
+    _, oo = vlib.run_lines([exe], olines + xlines)
+    xo = oo[len(olines):]
+    oo = oo[:len(olines)]
     seen, n_fail, max_draws, omix = set(), 0, {}, {}
+    for l, o in zip(xlines, xo + ["<missing>"] * (len(xlines) - len(xo))):
+        t = "xrelax:" + (o.split() or ["?"])[0]
+        omix[t] = omix.get(t, 0) + 1
+        for key, what, info in judge_xrelax(l, o):
+            n_fail += 1
+            if key not in seen:
+                seen.add(key)
+                ctx.violation(key, "real AtomicRelaxation: " + what,
+                              {"harness": "harness/interact.cc", "op": l, "impl_output": o})
     for l, o in zip(olines, oo + ["<missing>"] * (len(olines) - len(oo))):
         name = l.split()[1]
         r = parse_out(o)
@@ -604,7 +732,8 @@ def run(ctx):
             ctx.violation(key, "real interactor (%s): %s" % (name, what),
                           {"harness": "harness/interact.cc", "op": l, "impl_output": o, "info": info,
                            "incident": {"E": fl(w[4]), "dir": [fl(w[5]), fl(w[6]), fl(w[7])],
-                                        "cut": fl(w[8]), "cap": int(w[2]), "size": int(w[3])}})
+                                        "cut_e": fl(w[8]), "cut_g": fl(w[9]), "cut_p": fl(w[10]),
+                                        "cap": int(w[2]), "size": int(w[3])}})
     n_rot, rfails = check_rotate(rng, exe, 6000 if quick else 50000)
     for key, what, l, o, info in rfails:
         n_fail += 1
@@ -633,14 +762,14 @@ def run(ctx):
         "elements with data files in test/celeritas/data)",
     ]
     ctx.coverage.update({
-        "evaluations": len(lines) + len(olines) + n_rot, "distinct_nontrivial": len(distinct),
+        "evaluations": len(lines) + len(olines) + n_rot + n_xrelax, "distinct_nontrivial": len(distinct),
         "rule": "correspondence ops: every modelled interactor with log-uniform energies over its "
                 "applicability interval incl. both end points, directions on the whole sphere incl. "
                 "axes/poles, cuts, allocator capacity 0 / k-1 / ample, scripts incl. extreme "
                 "uniforms; non-trivial = answered neither bad-op nor script-exhausted; distinct = "
                 "distinct op lines",
         "op_mix": dict(sorted(kinds.items())), "outcome_mix": dict(sorted(outcome_mix.items())),
-        "oracle_cases": len(olines) + n_rot, "oracle_corpus_ops": n_xcorpus, "oracle_failures": n_fail,
+        "oracle_cases": len(olines) + n_rot + n_xrelax, "oracle_corpus_ops": n_xcorpus, "oracle_failures": n_fail,
         "oracle_outcomes": dict(sorted(omix.items())), "max_draws_seen": {k: v[0] for k, v in sorted(max_draws.items())},
         "max_draws_ops": {k: v[1] for k, v in sorted(max_draws.items()) if v[1]},
         "diverging_ops": len(diverged), "samples": lines[1:4] + olines[:2],
@@ -664,6 +793,10 @@ def replay(ctx, data):
         print("op:", r["op"])
         print("impl now:", o, " recorded:", r.get("impl_output"))
         w = r["op"].split()
+        if w and w[0] == "xrelax" and o:
+            fs = judge_xrelax(r["op"], o[0])
+            print("oracle:", fs if fs else "no failure")
+            return 1 if fs else 0
         if w and w[0] == "x" and o:
             fs = judge(w[1], r["op"], o[0])
             print("oracle:", fs if fs else "no failure")
